@@ -241,7 +241,9 @@ def build_node(nd, built: Dict[int, Any], case, mode: str, table_cols: Optional[
         else:
             on_arg = [(a, b) for a, b in on]
         kw = {}
-        if nd.get("check"):
+        if nd.get("check") == "by":
+            kw["check_all_common_keys_in_by"] = True  # the deprecated spelling of the same request
+        elif nd.get("check"):
             kw["check_all_common_keys_in_equi_spec"] = True
         return built[nd["a"]].natural_join(b=built[nd["b"]], on=on_arg, jointype=nd["jointype"], **kw)
     if op == "concat_rows":
